@@ -1,6 +1,7 @@
 import GraphrsModel.Obs
 import GraphrsModel.Proto
 import GraphrsModel.ObsSP
+import GraphrsModel.ObsCen
 open Graphrs
 
 /-- `store <specs> <universe> <w> <ops>`: the concrete model's and the specification's
@@ -31,6 +32,8 @@ def handle (line : String) : String :=
       match cmd with
       | "store" => run handleStore
       | "sp" => run handleSP
+      | "cen" => run handleCen
+      | "eig" => run handleEig
       | _ => "bad-request command"
 
 partial def loop (h : IO.FS.Stream) (out : IO.FS.Stream) : IO Unit := do
